@@ -1656,6 +1656,36 @@ void e_loop()
   if (interleave_other)
     vf::observation("either::loop: _loop is not called between the _next calls in " + std::to_string(interleave_other) +
                     " scripts (interleaving is observed only)");
+  // a LONG run of successes before the failure (a file parsed element by element, a long argument list): the documented
+  // result - the failure, after _loop saw every success once, in order - for every length (the watchdog and the
+  // sanitizers judge "returns normally"; a loop whose stack grows with the number of iterations ends in a SEGV here)
+  for (long const n : {1000L, 50000L, vf::tier(400000L, 4000000L)})
+  {
+    if (!vf::mine(static_cast<std::uint64_t>(n)))
+      continue;
+    if (!vf::begin_case("either::loop with %ld successes before the failure (failure type std::string)", n))
+      continue;
+    vf::note_distinct(vf::hash_mix(vf::hash_str(entry), static_cast<std::uint64_t>(n)));
+    using LE = fcppt::either::object<std::string, long>;
+    long produced = 0, consumed = 0, sum = 0;
+    bool in_order = true;
+    std::string const r = fcppt::either::loop(
+        [&produced, n]() -> LE {
+          if (produced == n)
+            return LE{std::string("the-failure-after-") + std::to_string(n)};
+          return LE{produced++};
+        },
+        [&](long const v) {
+          in_order = in_order && v == consumed;
+          ++consumed;
+          sum += v;
+        });
+    VF_COUNT("either::loop/long-runs");
+    if (r != "the-failure-after-" + std::to_string(n) || consumed != n || !in_order)
+      vf::violation("either::loop/long-run", "mismatch",
+                    std::to_string(n) + " successes: result \"" + r + "\", _loop called " + std::to_string(consumed) + " times" + (in_order ? "" : ", out of order"));
+    (void)sum;
+  }
 }
 
 void e_from_optional()
